@@ -321,6 +321,8 @@ def one_map(run, seed, idx, mods, tmap):
     run.count("tensormap_phase_key_layout:%s" % ["0,1", "0,1-registered-in-reverse", "2,5-registered-in-reverse", "1,0"][lay])
     phase_ids = np.where(nophase, -1, np.asarray(pkeys)[phase]).reshape(shp)
     okB = ok & ~nophase
+    with_labels = bool(rng(seed, "C10", "labels-map", idx).random() < 0.5)
+    run.count("tensormaps_with_a_labels_map", int(with_labels))
     run.count("tensormap_voxels_phase0", int((okB & (phase == 0)).sum()))
     run.count("tensormap_voxels_phase1", int((okB & (phase == 1)).sum()))
     run.count("tensormap_voxels_nophase", int(nophase.sum()))
@@ -330,7 +332,12 @@ def one_map(run, seed, idx, mods, tmap):
         wantsB[i] = g.eps_sample_matrix(cells[phase[i]], 0.5)
         wantcB[i] = g.eps_grain_matrix(cells[phase[i]], 0.5)
     for order in ("sample-first", "crystal-first"):
-        tm = tmap.TensorMap(maps={"UBI": ubimapB.copy(), "phase_ids": phase_ids.copy()}, phases=dict(phases_dict))
+        mapsB = {"UBI": ubimapB.copy(), "phase_ids": phase_ids.copy()}
+        if with_labels:
+            # a grain-label map as TensorMap.from_stack / a locally refined map carries it: label values repeat (they
+            # restart in every layer) while every voxel has its own UBI
+            mapsB["labels"] = (np.arange(n) % 3).reshape(shp) - (np.arange(n) % 7 == 0).reshape(shp)
+        tm = tmap.TensorMap(maps=mapsB, phases=dict(phases_dict))
         with contextlib.redirect_stdout(io.StringIO()):
             if order == "sample-first":
                 a = tm.eps_sample
